@@ -172,8 +172,8 @@ class CallMixin:
                         cn_ = cname.replace('(*', '').replace(')', '')
                         if nn == cn_ or (nn.endswith(cn_) and nn[-len(cn_) - 1] in '/.'):
                             self.assumed_used.add('in-context contract of %s in %s' % (cname, self.oname))
-                            return self.apply_param_contract(ctx, ins, st, cs, args, res_types,
-                                                             ptypes=[p_['type'] for p_ in fn['params']] if fn else None)
+                            args_, ptypes_ = self.realign_args(name, fn, args)
+                            return self.apply_param_contract(ctx, ins, st, cs, args_, res_types, ptypes=ptypes_)
             if spec is not None and (spec.requires or spec.ensures or spec.trusted or spec.modifies is not None
                                      or spec.assumed) and not want_inline:
                 return self.apply_func_contract(ctx, ins, st, spec, fn, fv, args, res_types, name)
@@ -216,6 +216,28 @@ class CallMixin:
                 return self.apply_param_contract(ctx, ins, st, ps, args, res_types)
             return self.unknown_call(ctx, ins, st, 'func value %s' % self.prog.srcline(ins.get('pos', '')), args, res_types)
         raise Unsupported('call of %r' % (fv,))
+
+    def realign_args(self, name, fn, args):
+        """an in-context contract names the callee's arguments by POSITION (`args a, b, c`), as the callee declared them
+        when the contract was written.  If the callee (a function of this module) has since gained a parameter or had
+        its parameters reordered, the arguments are put back into the baseline order by parameter NAME."""
+        if fn is None:
+            return args, None
+        ptypes = [p_['type'] for p_ in fn['params']]
+        from .baseline import load as load_baseline
+        bp = (load_baseline().get('#params') or {}).get(name)
+        cur = [p_['name'] for p_ in fn['params']]
+        if not bp or bp == cur or len(cur) != len(args):
+            return args, ptypes
+        out_a, out_t = [], []
+        for nm in bp:
+            if nm not in cur or cur.count(nm) != 1:
+                return args, ptypes
+            j = cur.index(nm)
+            out_a.append(args[j])
+            out_t.append(ptypes[j])
+        self.renamed_used.add('%s: arguments of %s realigned to the baseline parameter order' % (self.oname, name.rsplit('/', 1)[-1]))
+        return out_a, out_t
 
     def find_iface_spec(self, iface, method):
         cands = [iface + '.' + method]
